@@ -1,5 +1,6 @@
 //! E3: loopback peers around the real Listener and the real gRPC / HTTP / Agones adapters.
 mod net;
+mod c08;
 mod c11;
 mod c12;
 mod c14;
@@ -18,6 +19,7 @@ fn main() {
     let cli = common::cli();
     net::raise_fd_limit();
     match cli.id.as_str() {
+        "C08" => c08::run(cli),
         "C11" => c11::run(cli),
         "C12" => c12::run(cli),
         "C14" => c14::run(cli),
